@@ -99,12 +99,16 @@ PictureBytes(c) ==
       [] c.pb = "small"  -> 5 * n + 1
       [] c.pb = "q0"     -> n * (8 + CeilDiv((m.y + 2 * m.c) * wb, 8))
       [] c.pb = "scaler" -> 260 * n + 7
+      [] c.pb = "edge255" -> 259 * n
+      [] c.pb = "edge256" -> 260 * n
   ELSE
     CASE c.pb = "min"    -> 4 * n
       [] c.pb = "minp1"  -> 4 * n + 1
       [] c.pb = "small"  -> 9 * n + 2
       [] c.pb = "q0"     -> n * (4 + 64 + CeilDiv(m.y * wb, 8) + 2 * CeilDiv(m.c * wb, 8))
       [] c.pb = "scaler" -> 260 * n + 7
+      [] c.pb = "edge255" -> 259 * n     \* largest budget whose length fields fit 8 bits with scaler 1
+      [] c.pb = "edge256" -> 260 * n     \* smallest budget that needs scaler 2
 
 (* ---------------------------------------------------------------- validity ---------- *)
 (* The encoder's documented preconditions (encoder/pictures.py, sequence.py docstrings, the      *)
